@@ -323,6 +323,18 @@ def _typed_rows():
     return rows
 
 
+def _single_null_row():
+    cols = SP.layout("gdc-1.0.0-protected")["columns"]
+    rng = random.Random(7)
+    row = []
+    for n, d in cols:
+        t = G.valid_text(rng, d)
+        if d["k"] == "seq" and d["elem"].get("k") == "enum":
+            t = "Null" if n == "SOMATIC" else ""
+        row.append(t)
+    return row
+
+
 def corpus():
     return [
         # the known hazard: a scheme-less first column name starting with '#' is read back as a pragma
@@ -337,6 +349,11 @@ def corpus():
         {"stream": "corpus", "hlines": ["#version gdc-1.0.0", "#sort.order Coordinate", "#contigs 1,2,10,X",
                                         "#center  a  b  "],
          "mode": "Strict", "layout": "gdc-1.0.0", "names": None, "rows": _typed_rows()},
+        # known finding: scheme-less column names containing a separator cannot be carried by the column line
+        {"stream": "corpus", "hlines": [], "mode": "Silent", "layout": None, "names": ["a\tb", "c"], "rows": [["1", "2"]]},
+        # known finding: a one-element list holding the null member renders '' and comes back as the empty list
+        {"stream": "corpus", "hlines": ["#version gdc-1.0.0", "#annotation.spec gdc-1.0.0-protected"], "mode": "Strict",
+         "layout": "gdc-1.0.0-protected", "names": None, "rows": [_single_null_row()]},
     ]
 
 
